@@ -86,7 +86,7 @@ def cases(draw):
     system = draw(coupled_systems(state_form=True if shape == "state_ring" else draw(st.booleans()), operator_jacobians=True,
                                   input_scales=draw(st.integers(0, 2)) == 0,
                                   all_strong=True if shape in ("ring", "state_ring") else None, acyclic=shape == "feed_forward",
-                                  max_disc=3 if shape == "feed_forward" else 5))
+                                  max_disc=3 if shape == "feed_forward" else 5, more_self_coupled=True))
     values = draw(input_values(system))
     n_in = len(system["x"])
     out_names = [o["name"] for d in system["discs"] for o in d["outputs"]]
@@ -126,7 +126,7 @@ def cases(draw):
 def build_mda(p: dict, discs: list, info: dict):
     from gemseo.mda.factory import MDAFactory
 
-    common = {"tolerance": 1e-14, "max_mda_iter": 200, "use_lu_fact": p["lu"], "linear_solver": p["solver"],
+    common = {"tolerance": 1e-14, "max_mda_iter": 60, "use_lu_fact": p["lu"], "linear_solver": p["solver"],
               "linear_solver_tolerance": 1e-12}
     name = p["mda"]
     if name == "MDANewtonRaphson" and not info["all_strong"]:
@@ -135,8 +135,13 @@ def build_mda(p: dict, discs: list, info: dict):
     else:
         inner = p["inner"]
     factory = MDAFactory()
+    # the Newton linear systems have at most 15 well-conditioned unknowns: Krylov methods need at most that many
+    # iterations; the cap only matters when the operator is wrong (mutated trees would otherwise take minutes per case)
+    newton = {"newton_linear_solver_settings": {"maxiter": 100}}
     if name == "MDAChain":
         inner_settings = {} if inner == "MDAGaussSeidel" else {"n_processes": 1}
+        if inner == "MDANewtonRaphson":
+            inner_settings.update(newton)
         mda = factory.create("MDAChain", discs, inner_mda_name=inner, inner_mda_settings=inner_settings, n_processes=1,
                              chain_linearize=p["chain_linearize"], **common)
         tag = f"MDAChain[{inner}{',chain_linearize' if p['chain_linearize'] else ''}]"
@@ -144,7 +149,7 @@ def build_mda(p: dict, discs: list, info: dict):
         mda = factory.create(name, discs, **common)
         tag = name
     else:
-        mda = factory.create(name, discs, n_processes=1, **common)
+        mda = factory.create(name, discs, n_processes=1, **(newton if name == "MDANewtonRaphson" else {}), **common)
         tag = name
     mda.scaling = mda.ResidualScaling.NO_SCALING
     for sub in [mda, *getattr(mda, "inner_mdas", [])]:
@@ -373,7 +378,7 @@ def _case_derivatives(p, ctx):
         ctx.cls("state_resolved_by_the_mda")
     if info["n_scc_ge2"] == 0 and info["n_self_coupled"] == 0:
         ctx.cls("feed_forward_system")
-    discs_all = build_disciplines(model, p["values"], p["grammar"], state_solved=not unsolved)
+    discs_all = build_disciplines(model, p["values"], p["grammar"], state_solved=not unsolved, reject_non_finite=True)
     discs = [discs_all[i] for i in order]
     lu_with_operator = p["lu"] and p["matrix"] == "linear_operator"
     mda, tag = build_mda(p, discs, info)
